@@ -381,6 +381,15 @@ func checkC14(p *Prog, r *Report) {
 					got = true
 				}
 			}
+			/* A nil returned below the nil edge of a test of Wait's own
+			error is Wait's error, too. */
+			if !got && isNilConst(retVal(ret, 0)) {
+				for _, t := range nilTestsOf(goFn, wait) {
+					if edgeDominates(t.If, t.NilSucc, ret) {
+						got = true
+					}
+				}
+			}
 			if !got {
 				okAll = false
 				rErr.Bad(fnName(goFn)+":returns-Wait-error", posOf(ret), "after Wait, Go returns %s: an unsuccessful exit is not reported", rootsString(valueRoots(retVal(ret, 0), nil)))
